@@ -1,1 +1,213 @@
-From Coq Require Import ZArith List.
+(* stripComments (the state machine of the code: findOneOf scans, block loop, string copy loop)
+   equals the reference machine of JsonSpec for every input. *)
+From Coq Require Import ZArith List Bool Lia.
+Require Import ZifyBool.
+From Json Require Import JsonSpec JsonModel JsonProofsBase.
+Import ListNotations.
+Local Open Scope Z_scope.
+
+Notation ref := reference_strip_from.
+
+(* one step equations of the reference machine *)
+Lemma ref_normal_plain c t :
+  c <> 34 -> (c = 47 -> hd0 t <> 47 /\ hd0 t <> 42) -> ref Normal (c :: t) = c :: ref Normal t.
+Proof.
+  intros H1 H2. cbn [reference_strip_from].
+  destruct (c =? 34) eqn:E1; [lia|]. destruct (c =? 47) eqn:E2; [|reflexivity].
+  destruct t as [|d t']; [reflexivity|]. cbn [hd0] in H2.
+  destruct (d =? 47) eqn:E3; [lia|]. destruct (d =? 42) eqn:E4; [lia|]. reflexivity.
+Qed.
+
+Lemma ref_block_star t : hd0 t <> 47 -> ref BlockComment (42 :: t) = ref BlockComment t.
+Proof.
+  intros H. cbn [reference_strip_from]. cbn [Z.eqb Pos.eqb].
+  destruct t as [|d t']; [reflexivity|]. cbn [hd0] in H. destruct (d =? 47) eqn:E; [lia|reflexivity].
+Qed.
+
+(* // comment: findOneOf(src, "\r\n") *)
+Lemma line_comment_scan x :
+  match find_one_of [13; 10] x with
+  | None => ref LineComment x = []
+  | Some e => ref LineComment x = ref Normal e /\ (length e <= length x)%nat
+  end.
+Proof.
+  induction x as [|c t IH]; [reflexivity|].
+  cbn [find_one_of existsb]. destruct ((c =? 13) || ((c =? 10) || false)) eqn:E.
+  - split; [|lia]. cbn [reference_strip_from]. unfold brk.
+    destruct ((c =? 10) || (c =? 13)) eqn:E'; [|lia].
+    destruct (c =? 34) eqn:E1; [lia|]. destruct (c =? 47) eqn:E2; [lia|]. reflexivity.
+  - cbn [reference_strip_from]. unfold brk. destruct ((c =? 10) || (c =? 13)) eqn:E'; [lia|].
+    destruct (find_one_of [13; 10] t) as [e|]; [|exact IH].
+    destruct IH as [IH1 IH2]. split; [exact IH1|cbn [length]; lia].
+Qed.
+
+(* inside a block comment: findOneOf(src, "\r\n*") *)
+Lemma block_scan x :
+  match find_one_of [13; 10; 42] x with
+  | None => ref BlockComment x = []
+  | Some e => ref BlockComment x = ref BlockComment e /\ (length e <= length x)%nat /\
+              exists c t, e = c :: t /\ (c = 13 \/ c = 10 \/ c = 42)
+  end.
+Proof.
+  induction x as [|c t IH]; [reflexivity|].
+  cbn [find_one_of existsb]. destruct ((c =? 13) || ((c =? 10) || ((c =? 42) || false))) eqn:E.
+  - split; [reflexivity|]. split; [lia|]. exists c, t. split; [reflexivity|lia].
+  - assert (R : ref BlockComment (c :: t) = ref BlockComment t).
+    { cbn [reference_strip_from]. destruct (c =? 42) eqn:E1; [lia|]. unfold brk.
+      destruct ((c =? 10) || (c =? 13)) eqn:E2; [lia|reflexivity]. }
+    rewrite R. destruct (find_one_of [13; 10; 42] t) as [e|]; [|exact IH].
+    destruct IH as (IH1 & IH2 & IH3). split; [exact IH1|]. split; [cbn [length]; lia|exact IH3].
+Qed.
+
+Lemma strip_block_ref fb : forall x out, (length x < fb)%nat ->
+  match strip_block fb x out with
+  | (Some r', out') => rev (ref BlockComment x) ++ out = rev (ref Normal r') ++ out' /\
+                       (length r' <= length x)%nat
+  | (None, out') => out' = rev (ref BlockComment x) ++ out
+  end.
+Proof.
+  induction fb as [|f IH]; intros x out Hf; [lia|].
+  cbn [strip_block]. pose proof (block_scan x) as S.
+  destruct (find_one_of [13; 10; 42] x) as [e|]; [|rewrite S; reflexivity].
+  destruct S as (S1 & S2 & c & t & -> & Hc). rewrite S1. cbn [length] in S2.
+  destruct ((c =? 42) && (peek t =? 47)) eqn:E1.
+  - assert (c = 42) by lia. subst c. destruct t as [|d t']; [cbn in E1; lia|].
+    cbn [peek] in E1. assert (d = 47) by lia. subst d. cbn [tl].
+    split; [reflexivity|cbn [length] in *; lia].
+  - destruct (c =? 42) eqn:E2.
+    + assert (c = 42) by lia. subst c. rewrite ref_block_star by (rewrite <- peek_hd0; lia).
+      specialize (IH t out ltac:(lia)).
+      destruct (strip_block f t out) as [[r'|] out']; [|exact IH].
+      destruct IH as [IH1 IH2]. split; [exact IH1|lia].
+    + assert (R : ref BlockComment (c :: t) = c :: ref BlockComment t).
+      { cbn [reference_strip_from]. rewrite E2. unfold brk.
+        destruct ((c =? 10) || (c =? 13)) eqn:E3; [reflexivity|lia]. }
+      rewrite R. cbn [rev]. rewrite <- app_assoc. cbn [app].
+      specialize (IH t (c :: out) ltac:(lia)).
+      destruct (strip_block f t (c :: out)) as [[r'|] out']; [|exact IH].
+      destruct IH as [IH1 IH2]. split; [exact IH1|lia].
+Qed.
+
+(* the copy loop of a string literal *)
+Lemma strip_string_ref n : forall x out, (length x <= n)%nat ->
+  rev (ref InString x) ++ out = rev (ref Normal (fst (strip_string x out))) ++ snd (strip_string x out) /\
+  (length (fst (strip_string x out)) <= length x)%nat.
+Proof.
+  induction n as [|n IH]; intros x out Hn.
+  - destruct x; [cbn; split; [reflexivity|cbn [length fst snd]; lia]|cbn [length] in Hn; lia].
+  - destruct x as [|c t]; [cbn; split; [reflexivity|cbn [length fst snd]; lia]|].
+    cbn [length] in Hn. cbn [strip_string reference_strip_from].
+    destruct (c =? 92) eqn:E1.
+    + destruct t as [|e t'].
+      * cbn. split; [reflexivity|cbn [length fst snd]; lia].
+      * cbn [reference_strip_from length] in *.
+        destruct n as [|n']; [lia|].
+        assert (IH' : forall x out, (length x <= n')%nat ->
+          rev (ref InString x) ++ out = rev (ref Normal (fst (strip_string x out))) ++ snd (strip_string x out) /\
+          (length (fst (strip_string x out)) <= length x)%nat).
+        { intros. apply IH. lia. }
+        destruct (IH' t' (e :: c :: out) ltac:(lia)) as [I1 I2].
+        split; [|cbn [length fst snd] in *; lia]. rewrite <- I1. cbn [rev]. rewrite <- !app_assoc. reflexivity.
+    + destruct (c =? 34) eqn:E2.
+      * cbn [fst snd]. split; [|cbn [length fst snd] in *; lia]. cbn [rev]. rewrite <- app_assoc. reflexivity.
+      * destruct (IH t (c :: out) ltac:(lia)) as [I1 I2].
+        split; [|cbn [length fst snd] in *; lia]. rewrite <- I1. cbn [rev]. rewrite <- app_assoc. reflexivity.
+Qed.
+
+Lemma strip_main_ref f : forall r out, (length r < f)%nat ->
+  strip_main f r out = rev (ref Normal r) ++ out.
+Proof.
+  induction f as [|f IH]; intros r out Hf; [lia|].
+  cbn [strip_main]. destruct r as [|c t]; [reflexivity|]. cbn [length] in Hf.
+  destruct ((c =? 47) && (peek t =? 47)) eqn:E1.
+  { assert (c = 47) by lia. subst c. destruct t as [|d t']; [cbn in E1; lia|].
+    cbn [peek] in E1. assert (d = 47) by lia. subst d.
+    change (find_one_of [13; 10] (47 :: 47 :: t')) with (find_one_of [13; 10] t').
+    change (ref Normal (47 :: 47 :: t')) with (ref LineComment t').
+    pose proof (line_comment_scan t') as S.
+    destruct (find_one_of [13; 10] t') as [e|]; [|rewrite S; reflexivity].
+    destruct S as [S1 S2]. rewrite S1. apply IH. cbn [length] in Hf. lia. }
+  destruct ((c =? 47) && (peek t =? 42)) eqn:E2.
+  { assert (c = 47) by lia. subst c. destruct t as [|d t']; [cbn in E2; lia|].
+    cbn [peek] in E2. assert (d = 42) by lia. subst d. cbn [tl].
+    change (ref Normal (47 :: 42 :: t')) with (ref BlockComment t').
+    pose proof (strip_block_ref (S (length (42 :: t'))) t' out ltac:(cbn [length]; lia)) as B.
+    destruct (strip_block (S (length (42 :: t'))) t' out) as [[r'|] out']; [|exact B].
+    destruct B as [B1 B2]. rewrite B1. apply IH. cbn [length] in Hf. lia. }
+  destruct (negb (c =? 34)) eqn:E3.
+  { rewrite ref_normal_plain.
+    - cbn [rev]. rewrite <- app_assoc. apply IH. lia.
+    - lia.
+    - intros ->. rewrite <- peek_hd0. lia. }
+  assert (c = 34) by lia. subst c.
+  pose proof (strip_string_ref (length t) t (34 :: out) ltac:(lia)) as [S1 S2].
+  destruct (strip_string t (34 :: out)) as [r' out']. cbn [fst snd] in *.
+  change (ref Normal (34 :: t)) with (34 :: ref InString t).
+  cbn [rev]. rewrite <- app_assoc. cbn [app]. rewrite S1. apply IH. lia.
+Qed.
+
+Lemma strip_comments_is_reference s : strip_comments s = reference_strip s.
+Proof.
+  unfold strip_comments, reference_strip. rewrite strip_main_ref by lia.
+  rewrite app_nil_r. apply rev_involutive.
+Qed.
+
+(* ---------- what the reference keeps ---------- *)
+(* every line break byte of the input is kept, in order (whatever the mode) *)
+Lemma ref_keeps_breaks n : forall m s, (length s <= n)%nat ->
+  filter brk (ref m s) = filter brk s.
+Proof.
+  induction n as [|n IH]; intros m s Hn.
+  - destruct s; [destruct m; reflexivity|cbn [length] in Hn; lia].
+  - destruct s as [|c t]; [destruct m; reflexivity|]. cbn [length] in Hn.
+    assert (IHt : forall m', filter brk (ref m' t) = filter brk t) by (intros; apply IH; lia).
+    assert (KEEP : forall m', filter brk (c :: ref m' t) = filter brk (c :: t)).
+    { intros m'. cbn [filter]. rewrite IHt. reflexivity. }
+    assert (DROP : forall m', brk c = false -> filter brk (ref m' t) = filter brk (c :: t)).
+    { intros m' Hc. cbn [filter]. rewrite Hc. apply IHt. }
+    destruct m; cbn [reference_strip_from].
+    + destruct (c =? 34) eqn:E1; [apply KEEP|]. destruct (c =? 47) eqn:E2; [|apply KEEP].
+      destruct t as [|d t']; [apply KEEP|].
+      assert (IH2 : forall m', brk d = false -> filter brk (ref m' t') = filter brk (c :: d :: t')).
+      { intros m' Bd. cbn [filter]. rewrite Bd.
+        assert (Bc : brk c = false) by (unfold brk; lia). rewrite Bc.
+        apply IH. cbn [length] in Hn. lia. }
+      destruct (d =? 47) eqn:E3.
+      * apply IH2. unfold brk. lia.
+      * destruct (d =? 42) eqn:E4; [apply IH2; unfold brk; lia|apply KEEP].
+    + destruct (c =? 92); [apply KEEP|]. destruct (c =? 34); apply KEEP.
+    + apply KEEP.
+    + destruct (brk c) eqn:B; [apply KEEP|now apply DROP].
+    + destruct (c =? 42) eqn:E1.
+      * assert (Bc : brk c = false) by (unfold brk; lia).
+        destruct t as [|d t']; [now apply DROP|].
+        destruct (d =? 47) eqn:E2; [|now apply DROP].
+        cbn [filter]. rewrite Bc. assert (Bd : brk d = false) by (unfold brk; lia). rewrite Bd.
+        apply IH. cbn [length] in Hn. lia.
+      * destruct (brk c) eqn:B; [apply KEEP|now apply DROP].
+Qed.
+
+Lemma strip_keeps_line_breaks s : filter brk (strip_comments s) = filter brk s.
+Proof.
+  rewrite strip_comments_is_reference. apply (ref_keeps_breaks (length s)). lia.
+Qed.
+
+(* a text without any slash has no comment: nothing is removed *)
+Lemma ref_no_slash m s :
+  ~ In 47 s -> m <> LineComment -> m <> BlockComment -> ref m s = s.
+Proof.
+  revert m. induction s as [|c t IH]; intros m H M1 M2; [destruct m; reflexivity|].
+  assert (c <> 47) by (intros ->; apply H; left; reflexivity).
+  assert (Ht : ~ In 47 t) by (intros X; apply H; right; exact X).
+  destruct m; try congruence; cbn [reference_strip_from].
+  - destruct (c =? 34); [f_equal; apply IH; auto; discriminate|].
+    destruct (c =? 47) eqn:E; [lia|]. f_equal. apply IH; auto.
+  - destruct (c =? 92); [f_equal; apply IH; auto; discriminate|].
+    destruct (c =? 34); f_equal; apply IH; auto; discriminate.
+  - f_equal. apply IH; auto; discriminate.
+Qed.
+
+Lemma strip_no_slash_identity s : ~ In 47 s -> strip_comments s = s.
+Proof.
+  intros H. rewrite strip_comments_is_reference. apply ref_no_slash; [exact H|discriminate|discriminate].
+Qed.
